@@ -10,10 +10,14 @@ A status is a list of entries.  For the merging kinds an entry is one `RoutePare
 replaced as a whole (Gateway, GatewayClass, NginxGateway) the status is flattened into entries
 (entry 0: top-level conditions + flattened addresses; one entry per listener).
 
-The Go setters are closures over a `status` variable which the merging setters MUTATE
-(`status.Parents = append(status.Parents, os)`, `status.Ancestors = ancestors`).  The model keeps that
-captured variable as `Setter.cap` and returns the updated closure state from `invoke`.
-`invokeFixed` is the repaired variant (the closure state is never changed).
+The Go setters are closures over a `status` variable. Since commit 4e76cf1 the merging setters merge
+the foreign entries into a LOCAL copy (`newStatus`), so the captured variable `Setter.cap` never
+changes: that is `Setter.invoke`, the primary model which the driver runs and the correspondence
+compares with the code. `Setter.invokeMutating` is the PRE-FIX behaviour
+(`status.Parents = append(status.Parents, os)`, `status.Ancestors = ancestors`: the merged status was
+stored in the captured variable, so a re-invocation by the retry loop appended the foreign entries
+again); it is kept as a regression detector: a tree that matches only this variant is reported with the
+old signature `C08:retry-duplicates-foreign:<Kind>`.
 -/
 namespace NGF.StatusWrite
 
@@ -112,7 +116,7 @@ structure Setter where
   cap  : Status
   deriving DecidableEq, Repr
 
-/-- What the closure assigns to its captured status when it sees `prev`. -/
+/-- The merged status the closure computes when it sees `prev`. -/
 def merged (s : Setter) (prev : Status) : Status :=
   match s.kind.mode with
   | .ownFirst     => s.cap ++ foreign s.ctlr prev
@@ -125,16 +129,17 @@ def equalCheck (s : Setter) (prev cur : Status) : Bool :=
   | _      => statusEq s.kind s.ctlr prev cur
 
 /-- One invocation of the Go closure on a fetched object with status `prev`:
-(new closure state, status of the object afterwards, wasSet). -/
+(closure state afterwards, status of the object afterwards, wasSet). The merged status is a local
+value; the closure state is untouched. -/
 def Setter.invoke (s : Setter) (prev : Status) : Setter × Status × Bool :=
+  let cur := merged s prev
+  if equalCheck s prev cur then (s, prev, false) else (s, cur, true)
+
+/-- PRE-FIX variant (before 4e76cf1): the merged status is assigned to the captured variable. -/
+def Setter.invokeMutating (s : Setter) (prev : Status) : Setter × Status × Bool :=
   let cur := merged s prev
   let s' := { s with cap := cur }
   if equalCheck s prev cur then (s', prev, false) else (s', cur, true)
-
-/-- Repaired variant: the merged status is a local value, the closure state is untouched. -/
-def Setter.invokeFixed (s : Setter) (prev : Status) : Setter × Status × Bool :=
-  let cur := merged s prev
-  if equalCheck s prev cur then (s, prev, false) else (s, cur, true)
 
 /-! ### Retry loop -/
 
